@@ -1,20 +1,81 @@
 from common import Rng
 
 CONFIG = dict(
-    claimed=False, na_reason="proofs in progress (model, spec, correspondence and oracle already run)",
-    level_text="",
-    level_note="",
-    lean_modules=["Rbgp.Export.Spec"],
-    theorems=[],
+    claimed=True,
+    level_text="Kernel-checked Lean theorems over ALL inputs of the export model: the master theorems (the C09 reference "
+               "checker, one clause per sentence of the statement, accepts every advertisement and every inbound decision "
+               "the model can produce, for every receiver role, source, RR/cluster and confederation configuration, export "
+               "policy of the modelled fragment and every well-formed attribute set) plus one readable theorem per sentence "
+               "(no echo, no non-client to non-client, RS isolation, AS / ORIGINATOR_ID / CLUSTER_LIST loops never installed, "
+               "eBGP: one prepend after stripping confed segments, internal attributes and received MED removed, next hop "
+               "self; iBGP: LOCAL_PREF present, path and next hop untouched; reflection adds ORIGINATOR_ID and the "
+               "cluster-id; confed member AS in a confed sequence; LLGR_STALE; unknown transitive forwarded with Partial, "
+               "non-transitive dropped).  The model is tied to daemon/src/event/export.rs + the AS_PATH helpers of "
+               "packet/src/bgp.rs + rx_update by running the real process_nlri_change / is_as_loop / rx_update and the "
+               "model on the same generated cases (full 7 x 5 x 8 role matrix twice per run, then random cells) and "
+               "diffing every observation, with the reference checker as oracle on the real outputs.",
+    level_note="Trusted: Lean kernel; axioms propext/Classical.choice/Quot.sound; the hand-written model (checked only by the "
+               "correspondence stream); harness glue (term <-> packet::Attribute conversion, the transcribed "
+               "`if is_as_loop {continue}` chaining of run_select in front of rx_update, RIB lookup for `installed`). "
+               "Modelled, not verified: export policy beyond one statement with an ORIGIN condition and next-hop / MED / "
+               "community-add actions (C14), RTC filter, BMP Adj-RIB-Out notifications, the position at which "
+               "inject_local_pref_if_absent inserts into an unsorted vector (std binary search; observations are sorted "
+               "by code), malformed AS_PATH payloads (Attribute::decode rejects them, C05/C17).",
+    lean_modules=["Rbgp.Export.Props"],
+    theorems=[
+        "Rbgp.Export.Props.check_run_ok",
+        "Rbgp.Export.Props.check_rx_ok",
+        "Rbgp.Export.Props.no_echo",
+        "Rbgp.Export.Props.no_nonclient_to_nonclient",
+        "Rbgp.Export.Props.rs_isolation",
+        "Rbgp.Export.Props.as_loop_rejected",
+        "Rbgp.Export.Props.originator_loop_rejected",
+        "Rbgp.Export.Props.cluster_loop_rejected",
+        "Rbgp.Export.Props.ebgp_prepend_once_after_strip",
+        "Rbgp.Export.Props.prepend_first_as",
+        "Rbgp.Export.Props.prepend_hops",
+        "Rbgp.Export.Props.prepend_strip_no_confed",
+        "Rbgp.Export.Props.prepend_full_segment_fresh",
+        "Rbgp.Export.Props.ebgp_strips_lp_orig_cluster_aigp_med",
+        "Rbgp.Export.Props.ebgp_nexthop_self",
+        "Rbgp.Export.Props.ibgp_local_pref_present",
+        "Rbgp.Export.Props.ibgp_path_nh_untouched",
+        "Rbgp.Export.Props.reflect_adds_originator_and_cluster",
+        "Rbgp.Export.Props.confed_member_in_confed_seq",
+        "Rbgp.Export.Props.llgr_stale_community_present",
+        "Rbgp.Export.Props.opaque_transitive_partial",
+        "Rbgp.Export.Props.opaque_nontransitive_dropped",
+    ],
     harness=dict(kind="daemon", test="event::verif_event::c09::verif_main"),
     profiles=["debug"],
     n_quick=2600, n_thorough=200000, shards=12,
-    nontrivial_re=r"reach|installed",
-    rule="",
-    expect_tokens=[],
-    trusted_base=[],
-    modelled_not_verified=[],
-    assumptions=[],
+    nontrivial_re=r"\(reach|\(installed f",
+    rule="the full matrix source {local, kernel, eBGP, iBGP, RR-client, RS-client, confed} x receiver role {eBGP, RS-client, "
+         "iBGP, RR-client, confed-eBGP} x {cluster-id set / unset} x {confederation id set / unset} x {source LLGR-stale or "
+         "not} (280 cells, once with every attribute present and once with a random set), then random cells; attribute sets: "
+         "each of ORIGIN, AS_PATH (0-4 segments of all four types, lengths 0-5, 254, 255, local AS / confederation id "
+         "planted), MED, LOCAL_PREF, ATOMIC_AGGREGATE, AGGREGATOR, COMMUNITY (with LLGR_STALE / NO_LLGR), ORIGINATOR_ID, "
+         "CLUSTER_LIST, EXT_COMMUNITY, AIGP, LARGE_COMMUNITY present or absent, 0-3 unknown attributes with flags from "
+         "{C0,E0,80,A0,D0,40,00,F0,90}, shuffled order and duplicates now and then; next hop none / IPv4 / IPv6 / "
+         "link-local pair / unspecified; families IPv4, IPv6, Flowspec; add-path branch (effective_max 2,3); export policy "
+         "none or one statement (ORIGIN condition, next-hop self/peer/unchanged/address, MED set/mod, community add, "
+         "accept/reject/pass); echo (source address = receiver); inbound cases with planted AS / ORIGINATOR_ID / cluster-id "
+         "loops; 2.5 % syntactically damaged cases.  Non-trivial = an advertisement was produced or an inbound route was "
+         "refused; distinct = distinct case line",
+    expect_tokens=["suppressed", "(reach 0", "(reach 1", "(installed f)", "(installed t)", "(bad-case)", "(v6ll ", "(aspath (3 ",
+                   "(aspath (2 ", "(words 10 ", "(val 9 ", "(val 5 100)", "4294901766", "(opq ", "none (attrs"],
+    trusted_base=["model lean/Rbgp/Export/Model.lean of daemon/src/event/export.rs, the AS_PATH helpers of packet/src/bgp.rs and the "
+                  "loop tests of rx_update / run_select",
+                  "harness/daemon/c09.rs + export_common.rs: attributes are built with Attribute::new_with_value / new_with_bin / "
+                  "new_opaque from structured terms and printed back by an independent walk of the payload bytes; the inbound "
+                  "cases chain the real is_as_loop and the real rx_update as run_select does (transcribed `continue`)"],
+    modelled_not_verified=["export policy beyond the one-statement fragment (C14)", "RTC filter and BMP notifications inside "
+                           "process_nlri_change (held at None)", "insert position of inject_local_pref_if_absent in an unsorted "
+                           "attribute vector (std partition_point); observations are stably sorted by code",
+                           "AS_PATH payloads that are not a sequence of well-formed segments (cannot come out of Attribute::decode)"],
+    assumptions=["sources are as on_established builds them: role Ibgp / IbgpRrClient iff remote AS = local AS (the checker is "
+                 "vacuous on other sources, the model/implementation comparison is not)",
+                 "attribute sets hold one attribute per code, as the UPDATE decoder guarantees (same remark)"],
 )
 
 LASNS = [65001, 4200000001]
